@@ -65,6 +65,23 @@ Next ==
 
 Spec == Init /\ [][Next]_vars
 
+\* ---------------------------------------------------------------- liveness (C19: "returns within
+\* the timeout plus a bounded overhead", as far as a model without clocks can say it)
+Coordinator == StartAll \/ Check \/ Sleep \/ Kill \/ JoinAll \/ Copy \/ PostProcess
+MaxW == 16
+WStepOf(w) == w \in W /\ WStep(w)
+\* (1) once the deadline has passed the coordinator alone reaches Done - whatever the workers do,
+\*     even if they never take another step (an exponential search): at most Check, Kill, Copy,
+\*     PostProcess remain.
+FairCoordinator == Spec /\ WF_vars(Coordinator)
+ReturnsAfterDeadline == expired ~> Done
+\* (2) with a timeout and a clock that eventually strikes, the analysis always returns
+FairClock == Spec /\ WF_vars(Coordinator) /\ WF_vars(Deadline)
+AlwaysReturnsWithTimeout == par.to => <>Done
+\* (3) without a timeout it returns if every worker keeps running
+FairWorkers == Spec /\ WF_vars(Coordinator) /\ \A w \in 0..(MaxW - 1) : WF_vars(WStepOf(w))
+AlwaysReturnsWhenWorkersFinish == <>Done
+
 \* R2: the kernel table (abstract kernel, expected per-root cycles, expected full result)
 EmitTable ==
   \A id \in Kernels :
